@@ -2,7 +2,7 @@
    Each is closed by [exact] of a lemma of Proofs.v / ProofsExtract.v about the hand-written models of
    Model.v, which tools/props/c06.py ties to /repo by exact correspondences evaluated inside Coq. *)
 From Coq Require Import ZArith List Bool Lia Ring_theory Sorting.Sorted Sorting.Permutation.
-From PP Require Import C06.Model C06.Proofs C06.ModelExtract C06.ProofsExtract.
+From PP Require Import C06.Model C06.Proofs C06.ModelExtract C06.ProofsExtract C06.ProofsPerm.
 Import ListNotations.
 Open Scope Z_scope.
 
@@ -159,6 +159,42 @@ Theorem extract_mean_and_sum_placement : forall (is_sum use_numba : bool) labels
 Proof. exact mean_placement_Z. Qed.
 Print Assumptions extract_mean_and_sum_placement.
 
+(* 7. set_fixed_node_entries (ext grids, circulation pumps): code path (grouped sum over junction LABELS, index lookup,
+   integer-index assignment) = specification, as lists: for every duplicate-free non-negative labelling in any row
+   order, any fixing junctions (repeats allowed), numba on or off, the junction in table row r holds the mean of the
+   values given for ITS OWN label and the number of elements fixing it; other rows are untouched *)
+Theorem set_fixed_node_entries_placement : forall (use_numba : bool) js juncts vals old,
+  NoDup js -> (forall l, In l js -> 0 <= l) -> (forall j, In j juncts -> In j js) ->
+  length vals = length juncts -> length old = length js ->
+  fixed_code use_numba js juncts vals old = fixed_spec js juncts vals old.
+Proof. exact fixed_code_eq_spec. Qed.
+Print Assumptions set_fixed_node_entries_placement.
+
+(* 5. row permutation, exact-arithmetic half.
+   5a. positions: if the junction table is permuted by sigma, the junction that sigma puts into row k is found at pit
+       position start + k - every reference to it moves with it *)
+Theorem row_permutation_positions : forall js sigma start k,
+  NoDup js -> Permutation sigma (seq 0 (length js)) -> (k < length js)%nat ->
+  sget (mk_index_lookup (permute 0 sigma js) start) (nth (nth k sigma 0%nat) js 0) = start + Z.of_nat k.
+Proof. exact lookup_row_permutation. Qed.
+Print Assumptions row_permutation_positions.
+
+(* 5b. PARTIAL (named hypothesis: the assembled system of the permuted net is the transported system - that is the
+   statement of C01's assembly model under a permutation of node / branch rows and is not proved here): a linear system
+   whose unknowns and equations are renumbered by a bijection s (inverse u) of [0,N) has exactly the renumbered
+   solutions, in every commutative ring - so in exact arithmetic a row permutation permutes the Newton iterates *)
+Section RingPerm.
+  Context {A : Type} (zero one : A) (add mul sub : A -> A -> A) (opp : A -> A)
+          (Rth : ring_theory zero one add mul sub opp eq).
+  Theorem row_permutation_equivariance_partial : forall (s u : nat -> nat) (N : nat) t rhs x,
+    (forall i, (i < N)%nat -> u (s i) = i) -> (forall i, (i < N)%nat -> s (u i) = i) ->
+    (forall i, (i < N)%nat -> (s i < N)%nat) -> (forall i, (i < N)%nat -> (u i < N)%nat) ->
+    (forall e, In e t -> (fst (fst e) < N)%nat /\ (snd (fst e) < N)%nat) ->
+    (solves zero add mul (transport s t) (fun r => rhs (u r)) N (fun c => x (u c)) <-> solves zero add mul t rhs N x).
+  Proof. exact (solves_transport zero add mul). Qed.   (* no ring law is needed: holds for any zero / add / mul *)
+End RingPerm.
+Print Assumptions row_permutation_equivariance_partial.
+
 (* non-vacuity: unsorted, sparse, large labels; both dispatch outcomes on concrete keys *)
 Example lookup_example :
   let idx := [100007; 3; 52; 0] in
@@ -186,4 +222,13 @@ Example t_outlet_example :
                 [12; 24; 36; 48; 10; 20] [-1; -1; -1] = [12; 108; -1]
   /\ snd (pit_of [40; 10; 30] {| w_labels := [7; 3]; w_from := [10; 30]; w_to := [30; 40]; w_secs := [3; 1]%nat |} 3)
      = [(1, 3); (3, 4); (4, 2); (2, 0)].
+Proof. vm_compute. repeat split. Qed.
+
+(* set-points on a reversed labelling; a 3-cycle of the junction rows; a transported 2x2 system *)
+Example fixed_and_permutation_example :
+  fixed_code true [4; 3; 2; 1; 0] [4; 0; 4] [60; 48; 36] [-7; -7; -7; -7; -7] = ([48; -7; -7; -7; 48], [2; 0; 0; 0; 1])
+  /\ fixed_spec [4; 3; 2; 1; 0] [4; 0; 4] [60; 48; 36] [-7; -7; -7; -7; -7] = ([48; -7; -7; -7; 48], [2; 0; 0; 0; 1])
+  /\ sget (mk_index_lookup (permute 0 [2; 0; 1]%nat [70; 30; 50]) 0) 50 = 0
+  /\ rowsum 0 Z.add Z.mul (transport (fun i => (1 - i)%nat) [(0%nat, 0%nat, 2); (0%nat, 1%nat, 3); (1%nat, 1%nat, 5)]) 1%nat
+            (fun c => nth ((1 - c)%nat) [7; 11] 0) = 2 * 7 + 3 * 11.
 Proof. vm_compute. repeat split. Qed.
